@@ -59,6 +59,7 @@ func (c *child) buildSeeds() (seeds [][]byte, names []string) {
 			if ti%2 == 0 {
 				h["revision"] = "7"
 			}
+			c.prepTick("signing seed " + t.name)
 			a, err := c.sg.sign(t, h, body)
 			if err != nil {
 				panic(fmt.Sprintf("harness: cannot sign seed %s: %v", t.name, err))
@@ -71,7 +72,7 @@ func (c *child) buildSeeds() (seeds [][]byte, names []string) {
 }
 
 func (c *child) planHostile() (int, func(int)) {
-	c.setInflight(-1, "building seeds", nil)
+	c.prepTick("building seeds")
 	seeds, names := c.buildSeeds()
 	var segs []segment
 	per := perOffsetCount()
